@@ -1,7 +1,7 @@
 (* C07 — Observe client: notifications in freshness order, termination signalled once.
    Property theorems only; proofs are in Proofs/C07Serial.v, Proofs/C07.v, Proofs/C07Stack.v.
    Model: Gen/protocol_is_recent.v (translated from protocol.py on every run), Model/C07.v, Model/C07Stack.v. *)
-From Verif Require Import Lib.Py Lib.Tactics Gen.protocol_is_recent Model.C07 Model.C07Stack Model.C07Iter Model.C07Blockwise Proofs.C07Serial Proofs.C07 Proofs.C07Stack Proofs.C07Iter Proofs.C07Cancel Proofs.C07Blockwise Proofs.C07IterRun Proofs.C07Audit.
+From Verif Require Import Lib.Py Lib.Tactics Gen.protocol_is_recent Model.C07 Model.C07Stack Model.C07Iter Model.C07Blockwise Proofs.C07Serial Proofs.C07 Proofs.C07Stack Proofs.C07Iter Proofs.C07Cancel Proofs.C07Blockwise Proofs.C07IterRun Proofs.C07Audit Proofs.C07R6 Proofs.C07R6b Proofs.C07R6c.
 From Coq Require Import Permutation.
 Open Scope Z_scope.
 
@@ -294,6 +294,50 @@ Theorem network_error_on_failed_request_refuted :
   = [[]; [ORespExn NetworkError; OEb 0 (Some NotObservable); OEnd]].
 Proof. exact network_error_signalled_refuted. Qed.
 Print Assumptions network_error_on_failed_request_refuted.
+
+(* ================================================================== round 6: history-level statements *)
+(* ---- 15. over EVERY datagram history of the stack model (responses of every type, empty ACK / RST, transport errors, time
+         passing, application and loop actions; the observer is not registered a second time): if the observer was handed an
+         end signal anywhere in the history, the observation's token is released at its end ... *)
+Theorem stack_end_signal_releases_token : forall k has_obs reset con t0 ops,
+  (forall o, In o ops -> not_rereg k o) ->
+  sig k (history_apps (fst (srun (stack0 has_obs reset con t0) (SApp t0 (OpRegister k) :: ops)))) ->
+  snd (srun (stack0 has_obs reset con t0) (SApp t0 (OpRegister k) :: ops)) = false.
+Proof. exact Proofs.C07R6.stack_end_signal_releases_token. Qed.
+Print Assumptions stack_end_signal_releases_token.
+
+(* ... and the next notification on that token is rejected like an unknown response: later_notifications_rejected with its
+   hypothesis [k_token k = false] discharged by the history *)
+Theorem stack_notification_after_end_rejected : forall k has_obs reset con t0 ops now mt id observe tok mid j,
+  (forall o, In o ops -> not_rereg k o) -> (mt = CON \/ mt = NON) ->
+  let hist := SApp t0 (OpRegister k) :: ops in
+  sig k (history_apps (fst (srun (stack0 has_obs reset con t0) hist))) ->
+  let r := sstep (srun_state (stack0 has_obs reset con t0) hist) (SResponse now mt id observe tok mid) in
+  k_token (fst r) = false /\ wires (snd r) = (match mt with CON => [RST] | _ => [] end) /\ view j (apps (snd r)) = [].
+Proof. exact Proofs.C07R6.stack_notification_after_end_rejected. Qed.
+Print Assumptions stack_notification_after_end_rejected.
+
+(* ---- 16. BlockwiseRequest's observation over EVERY history (datagrams on the observation's and the follow-ups' tokens,
+         transport errors, loop runs): the outer observation is handed notifications, then at most one end signal, then
+         nothing (replaces blockwise_task_ends_once_partial; blockwise_silent_after_end's hypothesis [dead] is reached by
+         every end signal) *)
+Theorem blockwise_ends_at_most_once : forall reset t0 ops, exists cbs tail,
+  outer_obs (brun_outs (bw0 reset t0) ops) = cbs ++ tail /\ Forall isCb cbs /\ (tail = [] \/ exists e, tail = [BEb e]).
+Proof. exact blockwise_ends_once. Qed.
+Print Assumptions blockwise_ends_at_most_once.
+
+(* ---- 17. over EVERY run of the requester model (pipe events, late observers, start of the iteration at any point, loop
+         runs, application cancels) the message ids the async iterator yields form an in-order subsequence of what an
+         observer registered from the start is handed (audit gap 2, second half) *)
+Theorem iterator_on_run_subsequence : forall k reset ops, no_reg k ops ->
+  Subseq (it_ids (concat (run (sys0 true reset) (OpRegister k :: ops)))) (deliveries (observed k reset ops)).
+Proof. exact Proofs.C07R6c.iterator_on_run_subsequence. Qed.
+Print Assumptions iterator_on_run_subsequence.
+
+Example stack_history_instance :
+  sig 0 (history_apps (fst (srun (stack0 true 128000000 true 0)
+     [SApp 0 (OpRegister 0); SResponse 0 ACK 1 (Some 5) true true; SResponse 1 NON 2 None true false]))).
+Proof. unfold sig. vm_compute. discriminate. Qed.
 
 (* ================================================================== non-vacuity *)
 (* a concrete reordered, duplicated, wrapping history: first response Observe 2^24-2; arrivals 2^24-1, 1, 0 (late),
